@@ -252,7 +252,10 @@ pub fn vbyteio(tr: &mut Tr, seed: u64, dense_log: u32, maxlen: usize, sample3: u
     for _ in 0..500 {
         vals.insert(rng.random::<u64>() >> rng.random_range(0..64));
     }
-    for &v in &vals {
+    for (vi, &v) in vals.iter().enumerate() {
+        if vi % 4096 == 0 {
+            tr.reset(); // (stateless events: a reset only lets the validator split the trace)
+        }
         for variant in ["be", "le", "generic-be", "generic-le"] {
             vb_write_ev(tr, variant, v);
             tests += 1;
@@ -298,7 +301,10 @@ pub fn vbyteio(tr: &mut Tr, seed: u64, dense_log: u32, maxlen: usize, sample3: u
         }
     }
     rec(&mut vec![], maxlen, &mut strings);
-    for s in &strings {
+    for (si, s) in strings.iter().enumerate() {
+        if si % 50_000 == 0 {
+            tr.reset();
+        }
         vb_read_ev(tr, "be", s);
         vb_read_ev(tr, "le", s);
         tests += 2;
